@@ -456,6 +456,60 @@ class Program:
             if fn in ("float", "int") and len(expr.args) == 1 and not expr.keywords:
                 v = self.fold(expr.args[0], mod, env, depth + 1)
                 return float(v) if fn == "float" else int(v)
+            PURE = {"dict": dict, "tuple": tuple, "list": list, "set": set, "frozenset": frozenset, "sorted": sorted, "len": len, "range": range,
+                    "zip": zip, "enumerate": enumerate, "min": min, "max": max, "sum": sum, "abs": abs, "round": round, "pow": pow, "reversed": reversed,
+                    "bool": bool, "str": str}
+            if fn in PURE and fn not in env and not (mod is not None and self.resolve_name(mod, fn)):
+                # pure builtins applied to constants (tables computed from tables)
+                args = [self.fold(a, mod, env, depth + 1) for a in expr.args]
+                kws = {k.arg: self.fold(k.value, mod, env, depth + 1) for k in expr.keywords if k.arg}
+                if any(k.arg is None for k in expr.keywords):
+                    raise ValueError("**kwargs")
+                try:
+                    r = PURE[fn](*args, **kws)
+                    return list(r) if fn in ("zip", "enumerate", "range", "reversed") else r
+                except Exception as e:
+                    raise ValueError(str(e))
+        if isinstance(expr, (ast.ListComp, ast.GeneratorExp, ast.SetComp, ast.DictComp)):
+            out = []
+
+            def bind(t, v, e):
+                if isinstance(t, ast.Name):
+                    e[t.id] = v
+                elif isinstance(t, (ast.Tuple, ast.List)):
+                    vs = list(v)
+                    if len(vs) != len(t.elts):
+                        raise ValueError("unpack")
+                    for tt, vv in zip(t.elts, vs):
+                        bind(tt, vv, e)
+                else:
+                    raise ValueError("target")
+
+            def gen(i, e):
+                if len(out) > 4096:
+                    raise ValueError("comprehension too large")
+                if i == len(expr.generators):
+                    if isinstance(expr, ast.DictComp):
+                        out.append((self.fold(expr.key, mod, e, depth + 1), self.fold(expr.value, mod, e, depth + 1)))
+                    else:
+                        out.append(self.fold(expr.elt, mod, e, depth + 1))
+                    return
+                g = expr.generators[i]
+                try:
+                    items = list(self.fold(g.iter, mod, e, depth + 1))
+                except TypeError as ex:
+                    raise ValueError(str(ex))
+                for it in items:
+                    e2 = dict(e)
+                    bind(g.target, it, e2)
+                    if all(self.fold(c, mod, e2, depth + 1) for c in g.ifs):
+                        gen(i + 1, e2)
+            gen(0, dict(env))
+            if isinstance(expr, ast.DictComp):
+                return dict(out)
+            if isinstance(expr, ast.SetComp):
+                return set(out)
+            return out
         if isinstance(expr, ast.Subscript) and mod is not None:
             base = self.fold(expr.value, mod, env, depth + 1)
             idx = self.fold(expr.slice, mod, env, depth + 1)
